@@ -295,15 +295,25 @@ func (c *chunkReader) Read(p []byte) (int, error) {
 	return n, nil
 }
 
+// faultWriter fails the write that would cross byte `limit` (after taking the bytes up to it). With
+// `once` it recovers: later writes are accepted again — an encoder that carries on after the error
+// it was given then shows in the bytes as well as in the missing error.
 type faultWriter struct {
-	buf   []byte
-	limit int
+	buf     []byte
+	limit   int
+	once    bool
+	tripped bool
 }
 
 func (w *faultWriter) Write(p []byte) (int, error) {
+	if w.once && w.tripped {
+		w.buf = append(w.buf, p...)
+		return len(p), nil
+	}
 	room := w.limit - len(w.buf)
 	if len(p) > room {
 		w.buf = append(w.buf, p[:room]...)
+		w.tripped = true
 		return room, errFault
 	}
 	w.buf = append(w.buf, p...)
@@ -444,7 +454,7 @@ func genC03(r *Rng, e *Emitter, n int) {
 			}
 			e.tally("op=writer-fault")
 			e.emit("C03.wfault", fmt.Sprintf("(%s %d %s %d)", c.name, ndr, t.sx(), lim), guard(func() string {
-				w := &faultWriter{limit: lim}
+				w := &faultWriter{limit: lim, once: lim%2 == 1}
 				err := c.write(w, bo, g)
 				return fmt.Sprintf("(%v %s)", err != nil, hexOrDash(w.buf))
 			}))
